@@ -29,6 +29,7 @@ type Clause struct {
 	Line int
 	Loop int
 	Name string // optional label: `ensures [label] expr`
+	When *Clause // modifies ... when <cond over the pre-state>
 }
 
 type LoopBind struct {
@@ -175,7 +176,12 @@ func parseContractFile(path string, pc *PkgContracts) error {
 					break
 				}
 				for _, it := range splitTop(rest, ',') {
-					cur.Modifies = append(cur.Modifies, &Clause{Kind: "modifies", Text: strings.TrimSpace(it), Line: i + 1})
+					mc := &Clause{Kind: "modifies", Text: strings.TrimSpace(it), Line: i + 1}
+					if j := strings.Index(mc.Text, " when "); j >= 0 {
+						mc.When = &Clause{Kind: "when", Text: strings.TrimSpace(mc.Text[j+6:]), Line: i + 1}
+						mc.Text = strings.TrimSpace(mc.Text[:j])
+					}
+					cur.Modifies = append(cur.Modifies, mc)
 				}
 			case "loop":
 				f := strings.Fields(rest)
@@ -535,7 +541,7 @@ func genOverlay(pc *PkgContracts, files []*ast.File, specDir string) (string, er
 	}
 	body.WriteString("\n// ---- clause functions\n")
 	for _, fc := range pc.Funcs {
-		fc.Mangled = mangle(fc.QualName)
+		fc.Mangled = pc.Name + "__" + mangle(fc.QualName)
 		var pnames, ptypes, rnames, rtypes []string
 		if fc.Lemma {
 			// lemma: a ghost function defined in the spec file; find it in the spec text
@@ -632,6 +638,9 @@ func genOverlay(pc *PkgContracts, files []*ast.File, specDir string) (string, er
 		}
 		for i, c := range fc.Modifies {
 			emitMod(c, fmt.Sprintf("govc__%s__mod%d", fc.Mangled, i), nil)
+			if c.When != nil {
+				emit(c.When, fmt.Sprintf("govc__%s__mod%dwhen", fc.Mangled, i), nil, false)
+			}
 		}
 		var loopOrds []int
 		for k := range fc.Loops {
